@@ -4,7 +4,9 @@
    of callee-saved registers and sp)].
    kind "compile": Machine.tla runs the source, RV.tla the emitted instructions, on every input:
      source "done"  =>  target "done", a0.. = the source's results, callee-saved registers and sp restored.
-   kind "canon": both instruction sequences run under RV.tla; same status, a0, a1 and callee-saved registers. *)
+   kind "canon": both instruction sequences run under RV.tla; same status, a0, a1 and callee-saved registers.
+   kind "abi":   a riscv-level function that writes s-registers, before (codeA) and after (code) prologue/epilogue insertion:
+                 same a0, and after insertion the callee-saved registers and sp are restored. *)
 EXTENDS Machine, Json, IOUtils
 
 RVm == INSTANCE RV
@@ -22,7 +24,7 @@ Reg0(c, inp) == [n \in RVm!Regs |->
 R0(c, inp) == [x |-> Reg0(c, inp), mem |-> <<>>, pc |-> 1, status |-> "run", steps |-> 0]
 Init == /\ i \in 1 .. Len(Cases) /\ j \in 1 .. Len(Cases[i].inputs) /\ phase = "run"
         /\ mA = IF Cases[i].kind = "compile" THEN InitMachine(Cases[i].A, 1, Cases[i].inputs[j], 4000) ELSE Dummy
-        /\ rA = IF Cases[i].kind = "canon" THEN R0(Cases[i], Cases[i].inputs[j]) ELSE [status |-> "done"]
+        /\ rA = IF Cases[i].kind \in {"canon", "abi"} THEN R0(Cases[i], Cases[i].inputs[j]) ELSE [status |-> "done"]
         /\ rB = R0(Cases[i], Cases[i].inputs[j])
 Running(r) == r.status = "run" /\ r.steps < Fuel
 Restored(c, r, inp) == \A n \in RVm!CalleeSaved : r.x[n] = Reg0(c, inp)[n]
@@ -31,6 +33,12 @@ Clause(c, inp) ==
     IF mA.status # "done" \/ mA.pz = 1 THEN "ok"                      \* no obligation (ub / poison / fuel / unsupported source)
     ELSE IF rB.status # "done" THEN "TargetCompletesWhenSourceDoes:" \o rB.status
     ELSE IF \E k \in 1 .. c.nres : ~IsPoison(mA.rets[k]) /\ Trunc(rB.x[ArgRegs[k]], Len(mA.rets[k]) * 8) # mA.rets[k] THEN "SameResults"
+    ELSE IF ~Restored(c, rB, inp) THEN "CalleeSavedRegistersAndStackPointerRestored"
+    ELSE "ok"
+  ELSE IF c.kind = "abi" THEN      \* codeA: the function before riscv-prologue-epilogue-insertion, code: after it
+    IF rA.status # "done" THEN "ok"
+    ELSE IF rB.status # "done" THEN "TargetCompletesWhenSourceDoes:" \o rB.status
+    ELSE IF rA.x["a0"] # rB.x["a0"] THEN "SameResults"
     ELSE IF ~Restored(c, rB, inp) THEN "CalleeSavedRegistersAndStackPointerRestored"
     ELSE "ok"
   ELSE
